@@ -121,6 +121,69 @@ def gen_rwp(r, tier):
     return line, {"op": "rwp", "style": style, "n": n, "quat": quat, "circ": circ, "ratio": ratio}
 
 
+def gen_seq(r, tier):
+    """ONE resampling object serving several successive calls with different particle counts, layouts and weights
+    (state carried across calls: only the generator)"""
+    kind = r.choice([0, 0, 0, 1, 1, 2, 3])
+    ratio = r.choice([0.0, 0.1, 0.25, 0.3, 0.5, 0.75]) if kind == 1 else 0.0
+    seed = r.randrange(1, 2 ** 32)
+    ncalls = r.randint(2, 5)
+    shape = r.choice(["grow", "shrink", "mixed", "mixed", "same"])
+    ns = [r.choice([1, 2, 3, 4, 5, 8, 10, 16, 25, 40, 64]) for _ in range(ncalls)]
+    if shape == "grow":
+        ns = sorted(ns); ns[0] = r.choice([1, 2, 3]); ns[-1] = max(ns[-1], r.choice([10, 20, 50]))
+    elif shape == "shrink":
+        ns = sorted(ns, reverse=True); ns[0] = max(ns[0], r.choice([10, 20, 50])); ns[-1] = r.choice([1, 2, 3])
+    elif shape == "same":
+        ns = [ns[0]] * ncalls
+    parts, calls = [], []
+    for n in ns:
+        lin, circ, quat = layout(r)
+        style = r.choice(["uniform", "zeros-tail", "zeros", "onehot", "random", "dominated", "heavy-first"])
+        if style == "zeros-tail" and n > 1:
+            z = r.randint(1, n - 1)
+            w = normalise([r.uniform(-2, 0) for _ in range(n - z)] + [NEG_INF] * z)
+        elif style == "heavy-first" and n > 1:
+            w = normalise([0.0] + [r.uniform(-6, -3) for _ in range(n - 1)])
+        else:
+            w = gen_logw(r, style if style in RS_STYLES else "random", n)
+        calls.append((n, lin, circ, quat, w, style))
+        parts.append("%d %d %d %d %s" % (n, lin, circ, quat, " ".join(hexd(x) for x in w)))
+    line = "seq %d %d %s %d %s" % (seed, kind, hexd(ratio), ncalls, " ".join(parts))
+    return line, {"op": "seq", "style": "seq-" + shape, "n": max(ns), "quat": 0, "circ": 0, "kind": kind, "ratio": ratio, "seed": seed, "calls": calls}
+
+
+def parse_seq(line):
+    t = line.split()
+    seed, kind, ratio, ncalls = int(t[1]), int(t[2]), unhex(t[3]), int(t[4])
+    p, calls = 5, []
+    for _ in range(ncalls):
+        n, lin, circ, quat = [int(x) for x in t[p:p + 4]]; p += 4
+        calls.append((n, lin, circ, quat, [unhex(x) for x in t[p:p + n]], "replay")); p += n
+    return {"op": "seq", "style": "seq-replay", "n": max(c[0] for c in calls), "quat": 0, "circ": 0, "kind": kind, "ratio": ratio, "seed": seed, "calls": calls}
+
+
+def expand(cases, hout):
+    """(line, meta, harness output) per resample() call: a `seq` case becomes one virtual rs / rwp case per call"""
+    out = []
+    for (line, meta), h in zip(cases, hout):
+        if meta["op"] != "seq":
+            out.append((line, meta, h))
+            continue
+        blocks = h.split(" | ")
+        calls = meta["calls"]
+        ok = blocks[0].split()[:1] == ["ok"] and len(blocks) == len(calls) + 1
+        for c, (n, lin, circ, quat, w, style) in enumerate(calls):
+            op = "rwp" if meta["kind"] == 1 else "rs"
+            vline = "%s %d %d %d %d %d %s%s" % (op, meta["seed"], n, lin, circ, quat, (hexd(meta["ratio"]) + " ") if op == "rwp" else "", " ".join(hexd(x) for x in w))
+            vmeta = {"op": op, "style": "%s/call%d%s" % (meta["style"], c, "" if c == 0 else "+"), "n": n, "quat": quat, "circ": circ,
+                     "real_line": line, "call": c, "kind": meta["kind"]}
+            out.append((vline, vmeta, blocks[c + 1] if ok else h))
+            if not ok:
+                break
+    return out
+
+
 def boundary_cases(binary, r, want):
     """weights crafted so that the very first comb point equals the first cumulative weight exactly
     (u_0 == c_0): the boundary of the `while (u_j > csw(idx))` comparison."""
@@ -446,6 +509,7 @@ def run(ctx):
     r = g.r
     n_rs = ctx.n(1200, 12000)
     n_rwp = ctx.n(700, 6000)
+    n_seq = ctx.n(250, 4000)
     cases = []
     corpus = vlib.VERIF / "corpus" / "C07" / "cases.txt"
     replay_line = None
@@ -454,13 +518,19 @@ def run(ctx):
         replay_line = json.load(open(ctx.replay)).get("replay", {}).get("input_line")
     if replay_line:
         t = replay_line.split()
-        cases.append((replay_line, {"op": t[0], "style": "replay", "n": int(t[2]), "quat": int(t[5]), "circ": int(t[4])}))
-        n_rs = n_rwp = 0
+        if t[0] == "seq":
+            cases.append((replay_line, parse_seq(replay_line)))
+        else:
+            cases.append((replay_line, {"op": t[0], "style": "replay", "n": int(t[2]), "quat": int(t[5]), "circ": int(t[4])}))
+        n_rs = n_rwp = n_seq = 0
     elif corpus.exists():
         for ln in corpus.read_text().split("\n"):
             ln = ln.strip()
             if ln and not ln.startswith("#"):
-                cases.append((ln, {"op": ln.split()[0], "style": "corpus", "n": int(ln.split()[2]), "quat": int(ln.split()[5]), "circ": int(ln.split()[4])}))
+                if ln.startswith("seq "):
+                    cases.append((ln, parse_seq(ln)))
+                else:
+                    cases.append((ln, {"op": ln.split()[0], "style": "corpus", "n": int(ln.split()[2]), "quat": int(ln.split()[5]), "circ": int(ln.split()[4])}))
     if not replay_line:
         cases += boundary_cases(binary, r, ctx.n(6, 40))
     # exhaustive small: N = 1..3, uniform / one-hot at each position
@@ -470,8 +540,13 @@ def run(ctx):
             cases.append(("rs %d %d 1 1 0 %s" % (r.randrange(1, 2 ** 32), n, " ".join(hexd(x) for x in w)), {"op": "rs", "style": "small", "n": n, "quat": 0, "circ": 1}))
     cases += [gen_rs(r, ctx.tier) for _ in range(n_rs)]
     cases += [gen_rwp(r, ctx.tier) for _ in range(n_rwp)]
+    cases += [gen_seq(r, ctx.tier) for _ in range(n_seq)]
     lines = [c[0] for c in cases]
     hout, logs = vlib.run_harness(binary, lines)
+    n_inputs = len(cases)
+    vc = expand(cases, hout)               # one entry per resample() call
+    cases = [(l, m) for l, m, _ in vc]
+    hout = [h for _, _, h in vc]
     # driver lines are built from what the implementation actually used: u1 (twin generator) and exp(w_i) (libm)
     dlines = []
     for (line, meta), h in zip(cases, hout):
@@ -495,8 +570,11 @@ def run(ctx):
     corr_bad, prop_bad = [], []
     for idx, ((line, meta), h) in enumerate(zip(cases, hout)):
         d0, d1, d2 = dout[3 * idx:3 * idx + 3]
-        key = "%s:%s" % (meta["op"], meta["style"])
+        key = "%s:%s" % (meta["op"], meta["style"].split("/")[0])
         hist[key] = hist.get(key, 0) + 1
+        if "call" in meta:
+            ck = "object_calls_first" if meta["call"] == 0 else "object_calls_later"
+            stats[ck] = stats.get(ck, 0) + 1
         nb = "N=1" if meta["n"] == 1 else "N=2..4" if meta["n"] <= 4 else "N=5..40" if meta["n"] <= 40 else "N>40"
         nhist[nb] = nhist.get(nb, 0) + 1
         if meta.get("quat"):
@@ -509,8 +587,10 @@ def run(ctx):
                 probs = check_rwp(line, meta, h, d0, d1, stats)
         except (IndexError, ValueError) as ex:
             probs = [("prop", "malformed-output", "harness output not parseable (%s): %s" % (ex, h[:120]))]
+        if "call" in meta:
+            probs = [(kind, key2, "call %d on one %s object: %s" % (meta["call"], "ResamplingWithPrior" if meta["kind"] == 1 else "Resampling", what)) for kind, key2, what in probs]
         for kind, key2, what in probs:
-            (corr_bad if kind == "corr" else prop_bad).append((key2, what, line, h))
+            (corr_bad if kind == "corr" else prop_bad).append((key2, what, meta.get("real_line", line), h))
     prop_bad.sort(key=lambda v: len(v[2]))          # report the smallest failing input of each kind
     corr_bad.sort(key=lambda v: len(v[2]))
     seen = set()
@@ -525,12 +605,12 @@ def run(ctx):
                       {"harness": "h_pf", "correspondence": "resampleIdx / resampleWithPrior vs Resampling / ResamplingWithPrior", "input_line": line, "observed": h[:3000]}, no_input=True)
     nontrivial = set(l for (l, m) in cases if m["n"] > 1)
     ctx.coverage.update({
-        "evaluations": len(cases), "distinct_nontrivial": len(nontrivial & distinct),
+        "evaluations": len(cases), "input_lines": n_inputs, "distinct_nontrivial": len(nontrivial & distinct),
         "rule": "systematic resampling (rs) and prior-mixing resampling (rwp) on seeded random log-weight vectors: uniform, one-hot, exact zeros (-inf), "
-                "spanning 300 orders of magnitude, dominated, ties, near 1/N, deliberately sub-normalised (clamp branch), crafted u_0 == c_0 boundary, "
+                "object-level sequences (seq: ONE Resampling / ResamplingWithPrior / copy-constructed / move-assigned object serving 2..5 successive calls with different N, layouts and weights, twin generator in lock-step, every predicate per call), spanning 300 orders of magnitude, dominated, ties, near 1/N, deliberately sub-normalised (clamp branch), crafted u_0 == c_0 boundary, "
                 "N in 1..%d, random 32-bit seeds, layouts lin 0..3 / circ 0..2 / quaternion, ratios in [0,1); non-trivial = N > 1; distinct = distinct input lines"
                 % (200 if ctx.quick() else 400),
-        "samples": [cases[0][0][:300], cases[len(cases) // 2][0][:300], cases[-1][0][:300]],
+        "samples": [cases[0][0][:300], cases[len(cases) // 2][0][:300], lines[-1][:300]],
         "style_histogram": hist, "size_histogram": nhist, "branch_and_numeric_counters": stats,
         "traces_validated_against_impl": len(cases),
         "model_vs_impl_disagreements": len(corr_bad), "property_failures_on_impl": len(prop_bad),
